@@ -123,12 +123,22 @@ static int ctxinv(const struct inflate_state *s)
 	return 0;
 }
 /* streaming decode of in[0..inlen) in `mode`; split_in/split_out >= 0 force one split point; returns 0, or 1 when a violation was reported */
+/* g_pre_hdr: the application parses the gzip header itself with isal_read_gzip_header() on the same inflate_state (in pieces) and then
+ * inflates the rest in a *_NO_HDR(_VER) mode - the igzip command line tool's pattern */
+static const uint8_t *g_pre_hdr; static size_t g_pre_hdr_len; static long st_pre_hdr;
 static int run_streaming(int mode, const uint8_t *in, size_t inlen, vrng *r, int ikind, int okind, int chunked, long split_in, long split_out, const uint8_t *dict, size_t dictlen, int hist_bits, size_t outlimit, dres *res)
 {
 	struct inflate_state *s = (struct inflate_state *) gs_place(s_st, sizeof *s, vrn(r, 2) ? G_START : G_NEAR_END, 0);
 	vr_fill(r, s, 4096); memset(res, 0, sizeof *res); nev = 0; g_shape = NULL;
 	if (V_TRY(20)) { isal_inflate_init(s); s->crc_flag = mode; s->hist_bits = hist_bits; V_END; } else { fault_key("isal_inflate_init"); return 1; }
 	if (dict && !(mode == ISAL_ZLIB)) { uint8_t *dd = gs_place(s_dict, dictlen, G_END, 0); memcpy(dd, dict, dictlen); int rc = isal_inflate_set_dict(s, dd, (uint32_t) dictlen); if (rc) { viol_ev("set_dict-refused", "isal_inflate_set_dict on a fresh state returned %d", rc); return 1; } }
+	if (g_pre_hdr && g_pre_hdr_len && !dict) {
+		static struct isal_gzip_header gh; static uint8_t hb[70000]; if (g_pre_hdr_len > sizeof hb) return 0; memcpy(hb, g_pre_hdr, g_pre_hdr_len);
+		size_t off = 0; int rc = ISAL_END_INPUT, guard = 0;
+		if (V_TRY(20)) { isal_gzip_header_init(&gh); while (rc == ISAL_END_INPUT && off < g_pre_hdr_len && ++guard < 100000) { size_t c = vrn(r, 3) ? 1 + vrn(r, 12) : g_pre_hdr_len - off; if (c > g_pre_hdr_len - off) c = g_pre_hdr_len - off; s->next_in = hb + off; s->avail_in = (uint32_t) c; off += c; rc = isal_read_gzip_header(s, &gh); } V_END; } else { fault_key("isal_read_gzip_header"); return 1; }
+		if (rc != ISAL_DECOMP_OK || s->avail_in) { viol_ev("pre-parsed-header-rejected", "isal_read_gzip_header returned %d (avail_in %u) on a valid header of %zu bytes", rc, s->avail_in, g_pre_hdr_len); return 1; }
+		st_pre_hdr++;
+	}
 	if (!chunked) { uint8_t *p = gs_place(s_in, inlen, vrn(r, 2) ? G_END : G_START, 0); memcpy(p, in, inlen); }
 	size_t given = 0, outlen = 0; gslot *icur = NULL, *ocur = NULL; int irot = 0, orot = 0; uint8_t *ochunk = NULL; size_t ocap = 0; int idle = 0;
 	s->avail_in = 0; s->avail_out = 0; s->next_in = NULL; s->next_out = NULL;
@@ -324,7 +334,8 @@ static void valid_case(long idx, vrng *r, const char *lvl, int systematic)
 		/* (b) streaming in one call, (c) random schedule, fresh mapping per chunk */
 		if (run_streaming(mode, in, inlen, r, NICH - 1, NOCH - 1, 0, -1, -1, dict, v.dictlen, 0, 0, &d)) return; judge(mode, in, inlen, &rv, &d, 1, "stream-1call", 0);
 		int ik = vrn(r, NICH + 2), ok = vrn(r, NOCH + 2); if (v.elen > 20000 && ok < 9) ok = NOCH + 1; if (inlen > 20000 && ik < 9) ik = NICH + 1;
-		if (run_streaming(mode, in, inlen, r, ik, ok, vrn(r, 2), -1, -1, dict, v.dictlen, 0, 0, &d)) return; judge(mode, in, inlen, &rv, &d, 1, "stream-sched", 0);
+		g_pre_hdr = (mode == ISAL_GZIP_NO_HDR || mode == ISAL_GZIP_NO_HDR_VER) && vrn(r, 2) ? strm : NULL; g_pre_hdr_len = v.hdr_len;
+		{ int bad = run_streaming(mode, in, inlen, r, ik, ok, vrn(r, 2), -1, -1, dict, v.dictlen, 0, 0, &d); g_pre_hdr = NULL; if (bad) return; } judge(mode, in, inlen, &rv, &d, 1, "stream-sched", 0);
 		if (in == strm + offs[mi] && inlen > 12 && mode_verifies(mode)) { /* cut inside the trailer */ long sp = (long) (inlen - tail) - 1 - (long) vrn(r, 12); if (run_streaming(mode, in, inlen, r, 0, NOCH - 1, 1, sp, -1, dict, v.dictlen, 0, 0, &d)) return; judge(mode, in, inlen, &rv, &d, 1, "stream-trailer-split", 0); st_trailer_straddle++; }
 		if (systematic && inlen <= 700 && v.elen <= 3000) {   /* every single split point of input and of output */
 			for (long sp = 0; sp <= (long) inlen; sp++) { if (run_streaming(mode, in, inlen, r, 0, NOCH - 1, sp & 1, sp, -1, dict, v.dictlen, 0, 0, &d)) return; judge(mode, in, inlen, &rv, &d, 1, "split-in", 0); }
@@ -457,7 +468,7 @@ int main(int argc, char **argv)
 		}
 	}
 	v_stat("evaluations", st_decodes); v_stat("streams", st_streams); v_stat("library_calls", st_calls); v_stat("streams_with_codes_13plus", st_deep); v_stat("finished_results_checked_against_reference", st_false_ok_checked);
-	v_stat("rejected_but_reference_lenient", st_stricter); v_stat("mutants_still_valid_and_accepted", st_benign_ok); v_stat("trailer_straddling_histories", st_trailer_straddle); v_stat("need_dict_flows", st_needdict); v_stat("valid_streams_followed_by_foreign_bytes", st_tail); v_stat("stateless_retries_on_the_same_struct_after_overflow", st_sl_retry); v_stat("stateless_calls_on_a_struct_whose_previous_call_ended_inside_the_trailer", st_sl_trunc);
+	v_stat("rejected_but_reference_lenient", st_stricter); v_stat("mutants_still_valid_and_accepted", st_benign_ok); v_stat("trailer_straddling_histories", st_trailer_straddle); v_stat("need_dict_flows", st_needdict); v_stat("valid_streams_followed_by_foreign_bytes", st_tail); v_stat("stateless_retries_on_the_same_struct_after_overflow", st_sl_retry); v_stat("streams_whose_gzip_header_the_caller_parsed_with_the_reader_first", st_pre_hdr); v_stat("stateless_calls_on_a_struct_whose_previous_call_ended_inside_the_trailer", st_sl_trunc);
 	v_stat("inflate_dict_calls_refused", st_dict_refused);
 	v_count("stream_source", "grammar", st_kind[0]); v_count("stream_source", "zlib", st_kind[1]); v_count("stream_source", "isal", st_kind[2]);
 	v_count("flip_region", "header", st_detect[0]); v_count("flip_region", "body", st_detect[1]); v_count("flip_region", "trailer", st_detect[2]);
